@@ -117,6 +117,7 @@ class VLoop(asyncio.BaseEventLoop):
     def _run_once(self) -> None:
         self.steps += 1
         if self.steps > self.env.horizon:
+            self.env.frozen = True
             raise HorizonExceeded()
         self._pop_cancelled_timers()
         env = self.env
@@ -151,9 +152,9 @@ class VLoop(asyncio.BaseEventLoop):
         for a in self.actions:
             opts.append(("action", a))
         if not opts:
-            if self._scheduled:
-                # timers exist but the harness decided that they never fire: that is a wait forever
-                raise Deadlock()
+            # nothing can happen any more (timers that the harness never offers count as waiting forever);
+            # freeze the trace: what the clean-up of the runner does afterwards is not an observation
+            env.frozen = True
             raise Deadlock()
         if len(opts) > 1:
             if ready:
@@ -198,6 +199,8 @@ class Env:
         self.finished = False
         self.offer_timers = True
         self.horizon = HORIZON
+        self.frozen = False
+        self.in_loop = True
         self.inject_filter = None
         self.pending_signals: list[int] = []
         self.quiescent_hooks: list[Callable[[], None]] = []
@@ -212,10 +215,14 @@ class Env:
         return self.loop
 
     def log(self, *ev: Any) -> None:
+        if self.frozen:
+            return
         self.trace.append(ev)
         self.h = hash((self.h, ev))
 
     def fail(self, key: str, msg: str) -> None:
+        if self.frozen and self.in_loop:
+            return
         self.fails.append((key, msg))
 
     async def gate(self, label: str) -> None:
